@@ -56,6 +56,7 @@ type c12Spec struct {
 	Mode      string     `json:"mode"`                   // production | testing
 	Prior     int        `json:"prior_panics,omitempty"` // Panic calls issued (and recovered) on the same logger before the call of the cell
 	Argv      string     `json:"extra_argv,omitempty"`   // one more command-line argument of the process (an application flag that merely looks like a test flag)
+	Silenced  bool       `json:"silenced,omitempty"` // the logger's writers are io.Discard (a library user silencing one logger): nothing is delivered, the termination is due all the same
 	ViaScope  bool       `json:"flags_via_scope,omitempty"` // the two flags reach the cell's values through a SaveFlagsAndMod scope that set the opposite and was left again
 	NArgs     int        `json:"more_pairs,omitempty"`   // further key/value pairs of the call (0: the one pair every cell has); more than the pooled slices hold when large
 	Dir       string     `json:"dir,omitempty"`
@@ -66,7 +67,7 @@ func (s c12Spec) canon() string {
 	if s.Custom != nil {
 		c = fmt.Sprintf("%d/%d", s.Custom.V, s.Custom.Treat)
 	}
-	return fmt.Sprintf("%s.%s sev=%d L=%d ni=%v ia=%v %s d=%d %s c=%s p=%d", s.Recv, s.Name, s.Sev, s.Level, s.NoInt, s.IntAlways, s.Format, s.Dests, s.Mode, c, s.Prior) + " " + s.Argv + fmt.Sprintf(" n=%d scope=%v", s.NArgs, s.ViaScope)
+	return fmt.Sprintf("%s.%s sev=%d L=%d ni=%v ia=%v %s d=%d %s c=%s p=%d", s.Recv, s.Name, s.Sev, s.Level, s.NoInt, s.IntAlways, s.Format, s.Dests, s.Mode, c, s.Prior) + " " + s.Argv + fmt.Sprintf(" n=%d scope=%v silenced=%v", s.NArgs, s.ViaScope, s.Silenced)
 }
 
 // what the parent saw
@@ -237,6 +238,9 @@ func c12Child(args []string) {
 		} else {
 			e.AddWriter(w).AddErrorWriter(w)
 		}
+	}
+	if sp.Silenced {
+		e.SetWriter(io.Discard).SetErrorWriter(io.Discard)
 	}
 	fmt.Fprintf(journal, "ready intesting=%v flags=%d debug=%v level=%d\n", slog.VerifInTesting(), int64(slog.GetFlags()), is.DebugMode(), int(e.Level()))
 	defer func() {
@@ -430,8 +434,11 @@ func c12Oracle(r *Run, o c12Obs) {
 	admitted := c12SpecAdmits(sp, o.Debug)
 	terminal := sp.Sev == 0 || sp.Sev == 1
 	interrupt := !sp.NoInt && (sp.Mode != "testing" || sp.IntAlways)
-	// --- the record: complete, once per destination, iff admitted
+	// --- the record: complete, once per destination, iff admitted (a silenced logger delivers nothing: skipped)
 	for i, rec := range o.Records {
+		if sp.Silenced {
+			break
+		}
 		why := c12Complete(sp, []byte(rec))
 		switch {
 		case admitted && rec == "":
@@ -448,7 +455,7 @@ func c12Oracle(r *Run, o c12Obs) {
 			nw++
 		}
 	}
-	if admitted && nw != sp.Dests {
+	if admitted && nw != sp.Dests && !sp.Silenced {
 		fail("C12/write-count", fmt.Sprintf("%d Write calls for %d destinations", nw, sp.Dests))
 	}
 	// --- written BEFORE the termination: for a panic the journal and the file sizes at recovery show it;
@@ -695,6 +702,7 @@ func runC12(r *Run) {
 		cells[i].Dests = 1 + r.R.Intn(2)
 		cells[i].Prior = i % 3
 		cells[i].ViaScope = i%3 == 1
+		cells[i].Silenced = i%7 == 3
 		if i%5 == 2 { // a call with more attributes than the pooled slices hold
 			cells[i].NArgs = []int{1100, 130, 2100}[i/5%3]
 		}
@@ -707,6 +715,11 @@ func runC12(r *Run) {
 	obs := c12RunAll(bins, cells)
 	for _, o := range obs {
 		c12Oracle(r, o)
+		if o.Spec.Silenced { // (the model counts the records delivered: a silenced logger is judged by the direct oracle alone)
+			r.Count(true, "silenced "+o.Spec.canon())
+			r.Dist["silenced_cells"]++
+			continue
+		}
 		c12AddCase(r, o)
 	}
 	os.RemoveAll(filepath.Join(r.Out, "cells"))
